@@ -176,12 +176,35 @@ impl TypeCollector {
     ) -> Vec<CommandContext> {
         let type_resolver = analyzer.get_type_resolver();
 
+        // Different command names can map to the same identifier (`get_user` and `get_user_`,
+        // `getUser`): every wrapper and every Params type gets its own name
+        let mut used_function_names = std::collections::HashSet::new();
+        let mut used_type_names = std::collections::HashSet::new();
+
         commands
             .iter()
             .map(|cmd| {
-                CommandContext::new(config).from_command_info(cmd, visitor, &|rust_type: &str| {
-                    type_resolver.borrow_mut().parse_type_structure(rust_type)
-                })
+                let mut context = CommandContext::new(config).from_command_info(
+                    cmd,
+                    visitor,
+                    &|rust_type: &str| type_resolver.borrow_mut().parse_type_structure(rust_type),
+                );
+
+                let base_name = context.ts_function_name.clone();
+                let mut suffix = 2;
+                while !used_function_names.insert(context.ts_function_name.clone()) {
+                    context.ts_function_name = format!("{}{}", base_name, suffix);
+                    suffix += 1;
+                }
+
+                let base_name = context.ts_type_name.clone();
+                let mut suffix = 2;
+                while !used_type_names.insert(context.ts_type_name.clone()) {
+                    context.ts_type_name = format!("{}{}", base_name, suffix);
+                    suffix += 1;
+                }
+
+                context
             })
             .collect()
     }
